@@ -418,4 +418,5 @@ def _set_mtime(env, path, mtime):
     else:
         import os
 
-        os.utime(path, (mtime, mtime))
+        sec = int(mtime)
+        os.utime(path, ns=(sec * 1_000_000_000, sec * 1_000_000_000 + round((mtime - sec) * 1e9)))
